@@ -43,10 +43,10 @@ def km_expr(km):
   return "(" + " @@ ".join('"%s" :> %s' % (k, S(v)) for k, v in km.items()) + ")"
 
 
-def cfg(max_ops, kinds, modes_w, modes_a, io, share="tensor", max_sub=1, max_ins=1, fixes=None, km=None, dup="no", layout="alloc", sigorder="same"):
+def cfg(max_ops, kinds, modes_w, modes_a, io, share="tensor", max_sub=1, max_ins=1, fixes=None, km=None, dup="no", layout="alloc", sigorder="same", passthru=False):
   km = km or km_generic(kinds, modes_w, modes_a)
   return dict(MaxOps=str(max_ops), MaxSub=str(max_sub), MaxIns=str(max_ins), Kinds=K(kinds), KM=km_expr(km),
-              IOModes=S(io), Share='"%s"' % share, Dup='"%s"' % dup, Layout='"%s"' % layout, SigOrder='"%s"' % sigorder, Fixes=K(FIXES_NOW if fixes is None else fixes))
+              IOModes=S(io), Share='"%s"' % share, Dup='"%s"' % dup, Layout='"%s"' % layout, SigOrder='"%s"' % sigorder, PassThru="TRUE" if passthru else "FALSE", Fixes=K(FIXES_NOW if fixes is None else fixes))
 
 
 def quick_configs():
@@ -62,6 +62,9 @@ def quick_configs():
       # signatures that list inputs / outputs in another order than the subgraph; a binary operator the quantizer does not know
       "q5_sigrev_2op": cfg(2, ["FC", "EW2", "UNSUP2"], [NOQ, M("SRQ", "a8a", "w8c")],
                            [NOQ, M("SRQ", "a8a", "w8c")], IO_2, share="tensor", sigorder="rev", max_ins=2),
+      # a graph input that is also a graph output (return x, f(x))
+      "q6_passthru_1op": cfg(1, ["FC", "EW2", "EW1", "FIXT", "SAMEIN0", "UNSUP"], [NOQ, M("SRQ", "a8a", "w8c"), M("WO", "-", "w8c"), M("DRQ", "-", "w8c")],
+                             [NOQ, M("SRQ", "a8a", "w8c"), M("SRQ", "a16", "w8c")], IO_RICH, share="none", passthru=True, max_ins=2),
       # tensor table with all activations before all constants (legal, unusual)
       "q4_actsfirst_2op": cfg(2, ["FC", "EW2", "FIXT"], [NOQ, M("SRQ", "a8a", "w8c"), M("WO", "-", "w8c"), M("F16")],
                               [NOQ, M("SRQ", "a8a", "w8c")], IO_2, share="tensor", layout="actsfirst"),
